@@ -508,7 +508,7 @@ def classify(model, ctx):
     ctx.nontrivial((n >= 2 and nonzero_rpy and generic_axis) or bool(omitted))
 
 
-def c_generated(case, ctx):
+def _run_generated(case, ctx):
     d = tempfile.mkdtemp(prefix="vf_c13_")
     try:
         path = os.path.join(d, "generated.urdf")
@@ -543,6 +543,125 @@ def c_generated(case, ctx):
         compare(path, model, case["qs"], ctx)
     finally:
         shutil.rmtree(d, ignore_errors=True)
+
+
+# Quick tier: Hypothesis' shrinker is switched off for the generated clauses (a description has ~100 draws and
+# one shrink costs ~30 CPU-seconds per failing clause and shard); instead a bounded delta-debugging pass over the
+# description runs here, and the case object is rewritten IN PLACE so that the runner records the simplified
+# witness.  The thorough tier keeps Hypothesis' shrinker and does not come here.
+
+def _tier():
+    import sys
+    if "--tier" in sys.argv[:-1]:
+        return sys.argv[sys.argv.index("--tier") + 1]
+    return os.environ.get("VERIF_TIER") or "quick"
+
+
+class _NoCtx:
+    replay = True
+
+    def label(self, *_):
+        pass
+
+    nontrivial = note = label
+
+    def skip(self, reason):
+        from vf.core import Skip
+        raise Skip(reason)
+
+
+def _failure_key(msg):
+    return msg.split(":")[0]
+
+
+_PLAIN_LAYOUT = {"perm": 0, "decl": False, "indent": False, "numfmt": "repr", "sep": 0, "distractors": []}
+
+
+def _simplify(case, msg, budget=90):
+    """Greedy, bounded: keep a candidate when it fails with the same kind of message."""
+    import copy
+    from vf.core import Skip
+    key = _failure_key(msg)
+    best, best_msg = copy.deepcopy(case), msg
+    left = [budget]
+
+    def attempt(cand):
+        nonlocal best, best_msg
+        if left[0] <= 0 or cand == best:
+            return False
+        left[0] -= 1
+        try:
+            _run_generated(copy.deepcopy(cand), _NoCtx())
+        except Skip:
+            return False
+        except Violation as v:
+            if _failure_key(str(v)) == key:
+                best, best_msg = cand, str(v)
+                return True
+        return False
+
+    def edited(fn):
+        c = copy.deepcopy(best)
+        fn(c)
+        return c
+
+    def moving(c):
+        return sum(1 for j in c["joints"] if j["type"] != "fixed")
+
+    # 1. the layout and the link payloads
+    def plain_layout(c):
+        c["layout"] = dict(_PLAIN_LAYOUT)
+        c["names"] = None
+        c["root"] = dict(_PLAIN_LINK, world=False)
+        for j in c["joints"]:
+            j["child"] = dict(_PLAIN_LINK)
+            j["order"] = 0
+            j["dynamics"] = False
+    attempt(edited(plain_layout))
+    # 2. drop joints
+    changed = True
+    while changed and left[0] > 0:
+        changed = False
+        for k in range(len(best["joints"]) - 1, -1, -1):
+            c = edited(lambda c: c["joints"].pop(k))
+            if moving(c) >= 1 and attempt(c):
+                changed = True
+                break
+    # 3. per joint: plain origin pieces, axis, limits; then the joint values
+    for k in range(len(best["joints"])):
+        def zero_xyz(c):
+            if c["joints"][k]["origin"] is not None and c["joints"][k]["origin"]["xyz"] is not None:
+                c["joints"][k]["origin"]["xyz"] = [0.0, 0.0, 0.0]
+
+        def zero_rpy(c):
+            if c["joints"][k]["origin"] is not None and c["joints"][k]["origin"]["rpy"] is not None:
+                c["joints"][k]["origin"]["rpy"] = [0.0, 0.0, 0.0]
+
+        def x_axis(c):
+            if c["joints"][k]["axis"] is not None:
+                c["joints"][k]["axis"] = [1.0, 0.0, 0.0]
+
+        def std_limit(c):
+            if c["joints"][k]["type"] == "revolute":
+                c["joints"][k]["limit"] = {"effort": 0.0, "velocity": 0.0, "lower": -PI, "upper": PI}
+            elif c["joints"][k]["type"] == "continuous":
+                c["joints"][k]["limit"] = None
+        for fn in (zero_xyz, zero_rpy, x_axis, std_limit):
+            attempt(edited(fn))
+    attempt(edited(lambda c: c.update(qs={"u": [0.75] * 8, "abs": [0] * 8})))
+    return best, best_msg
+
+
+def c_generated(case, ctx):
+    try:
+        _run_generated(case, ctx)
+    except Violation as v:
+        if ctx.replay or _tier() != "quick":
+            raise
+        best, msg = _simplify(case, str(v))
+        case.clear()
+        case.update(best)
+        raise Violation(msg)
 
 
 def c_bundled(case, ctx):
@@ -818,16 +937,16 @@ bundled_cases = st.fixed_dictionaries({"file": st.integers(0, len(BUNDLED) - 1),
 
 CLAUSES = [
     Clause("fk_fully_specified", c_generated, urdfs(rpy_pool="special"), 260, 24000,
-           region=near_pi_axis_region,
+           region=near_pi_axis_region, shrink_quick=False,
            doc="every optional written; rpy incl. decimal truncations of pi and NearZero-band values"),
-    Clause("optionals_take_defaults", c_generated, urdfs(omit="maybe"), 260, 24000,
+    Clause("optionals_take_defaults", c_generated, urdfs(omit="maybe"), 260, 24000, shrink_quick=False,
            doc="each of <origin>, xyz, rpy, <axis> independently omitted (>=1 omitted by construction)"),
-    Clause("limit_spellings", c_generated, urdfs(spellings=True, max_moving=5, max_fixed=2), 160, 12000,
+    Clause("limit_spellings", c_generated, urdfs(spellings=True, max_moving=5, max_fixed=2), 160, 12000, shrink_quick=False,
            doc="limits not containing zero / degenerate / wide; continuous: no <limit>, effort+velocity only, bounds"),
-    Clause("file_layout", c_generated, urdfs(layout="rich"), 180, 16000, region=near_pi_axis_region,
+    Clause("file_layout", c_generated, urdfs(layout="rich"), 180, 16000, region=near_pi_axis_region, shrink_quick=False,
            doc="shuffled order, world root, inertials, visuals, distractors, number formats, name styles"),
     Clause("everything_combined", c_generated,
            urdfs(rpy_pool="special", omit="maybe", spellings=True, layout="rich"), 200, 24000,
-           region=near_pi_axis_region),
+           region=near_pi_axis_region, shrink_quick=False),
     Clause("bundled_files", c_bundled, bundled_cases, 120, 4000),
 ]
